@@ -51,6 +51,8 @@ class LexModel:
         if self.default_dcls != dcls:
             self.readers[self.default_dcls] = lang.Reader(repo, gcls, self.default_dcls)
         self.atoms = []
+        self.bools = {}
+        self.uses_continue = False
 
     # ------------------------------------------------------------ symbols
     def predicate_lang(self, pred, dcls):
@@ -156,6 +158,15 @@ class LexModel:
                             cs = SL.chars_where(lambda c: f(c) == k)
                             d = penultimate_in(cs) if sym[base.id] == "CHAR" else last_in(cs)
                             return d if isinstance(op, ast.Eq) else ~d
+            if isinstance(op, (ast.In, ast.NotIn)) and "state" in norm(l) and isinstance(l, ast.Subscript) \
+                    and isinstance(l.value, ast.Name) and sym.get(l.value.id) == "PRESERVE":
+                # preserve["state"] in (Preserve.A, Preserve.B) -- a module constant is followed
+                tab = r
+                if isinstance(tab, ast.Name):
+                    tab = self.repo.module_constant("lexer", tab.id) or tab
+                if isinstance(tab, (ast.Tuple, ast.List, ast.Set)):
+                    has_false = any(norm(x) == "Preserve.FALSE" for x in tab.elts)
+                    return has_false if isinstance(op, ast.In) else not has_false
             if isinstance(op, (ast.In, ast.NotIn)):
                 tab = self.table(r, sym)
                 if isinstance(l, ast.Name) and sym.get(l.id) in ("CHAR", "NEXT"):
@@ -169,6 +180,12 @@ class LexModel:
         if isinstance(e, ast.Call):
             self.atoms.append(norm(e, 80))
             f = e.func
+            if isinstance(f, ast.Name) and f.id == "lex_continue":
+                args = [sym.get(a.id) if isinstance(a, ast.Name) else None for a in e.args]
+                if args[:6] != ["CHAR", "NEXT", "LEXEME", "TOKEN", "PRESERVE", "G"] or e.keywords:
+                    raise AnalysisError(f"lexer() calls lex_continue with {args}; LEX1 expects (char, next_char, lexeme, tok, preserve, g)")
+                self.uses_continue = True
+                return self.continue_language()
             # g.char_allowed(next_char)
             if isinstance(f, ast.Attribute) and f.attr == "char_allowed" and e.args and isinstance(e.args[0], ast.Name):
                 which = sym.get(e.args[0].id)
@@ -196,9 +213,59 @@ class LexModel:
             raise AnalysisError(f"LEX1: call `{norm(e)}` not in the lexer-model vocabulary")
         if isinstance(e, ast.Constant) and isinstance(e.value, bool):
             return e.value
+        if isinstance(e, ast.Name) and e.id in self.bools:
+            return self.bools[e.id]
         raise AnalysisError(f"LEX1: condition `{norm(e)}` not in the lexer-model vocabulary")
 
     # ------------------------------------------------------------ functions
+    def walk(self, stmts, reach, sym, out):
+        """Path walk of a statement list: `reach` is the language of x = lexeme.next for which control arrives.
+        Adds to out[kind] the languages that return True ('T'), return False ('F'), `continue` ('C') or arrive
+        at a yield ('Y'); returns the language that falls off the end."""
+        def lang(c, within):
+            return within if c is True else (SL.EMPTY if c is False else within & c)
+        for st in stmts:
+            if reach.empty():
+                break
+            if isinstance(st, ast.Expr) and isinstance(st.value, ast.Constant):
+                continue
+            if isinstance(st, ast.Pass):
+                continue
+            if any(isinstance(n, (ast.Yield, ast.YieldFrom)) for n in ast.walk(st)) and not isinstance(st, ast.If):
+                out["Y"] = out.get("Y", SL.EMPTY) | reach
+                return SL.EMPTY                 # what follows the first yield belongs to the next lexeme
+            if isinstance(st, ast.If):
+                c = self.cond(st.test, sym)
+                t = lang(c, reach)
+                n1 = self.walk(st.body, t, sym, out)
+                n2 = self.walk(st.orelse, reach - t, sym, out)
+                reach = n1 | n2
+                continue
+            if isinstance(st, ast.Continue):
+                out["C"] = out.get("C", SL.EMPTY) | reach
+                return SL.EMPTY
+            if isinstance(st, ast.Return):
+                if st.value is None:
+                    out["F"] = out.get("F", SL.EMPTY) | reach
+                else:
+                    t = lang(self.cond(st.value, sym), reach)
+                    out["T"] = out.get("T", SL.EMPTY) | t
+                    out["F"] = out.get("F", SL.EMPTY) | (reach - t)
+                return SL.EMPTY
+            if isinstance(st, ast.Assign) and len(st.targets) == 1 and isinstance(st.targets[0], ast.Name):
+                name = st.targets[0].id
+                if isinstance(st.value, (ast.BoolOp, ast.Compare, ast.UnaryOp)) or (
+                        isinstance(st.value, ast.Call) and isinstance(st.value.func, ast.Attribute)
+                        and (st.value.func.attr.startswith("is_") or st.value.func.attr in ("char_allowed", "startswith", "endswith"))):
+                    self.bools[name] = self.cond(st.value, sym)      # a named condition
+                    continue
+                if name in sym and sym[name] in ("CHAR", "NEXT", "LEXEME", "TOKEN", "PRESERVE", "G", "D", "TEXT"):
+                    raise AnalysisError(f"LEX1: `{norm(st, 60)}` rebinds a modelled variable before the end-of-lexeme decision")
+                self.bools.pop(name, None)
+                continue
+            raise AnalysisError(f"LEX1: statement `{norm(st, 60)}` not in the lexer-model vocabulary")
+        return reach
+
     def continue_language(self):
         """C: x = lexeme.next for which lex_continue() returns True (non-preserving state)."""
         fn = self.repo.function("lexer", "lex_continue")
@@ -206,33 +273,17 @@ class LexModel:
         if len(params) != 6:
             raise AnalysisError("lex_continue signature changed; LEX1 needs (char, next_char, lexeme, token, preserve, g)")
         sym = {params[0]: "CHAR", params[1]: "NEXT", params[2]: "LEXEME", params[3]: "TOKEN", params[4]: "PRESERVE", params[5]: "G"}
-        reach = SIGMA
-        T = SL.EMPTY
-        for st in fn.body:
-            if isinstance(st, ast.Expr) and isinstance(st.value, ast.Constant):
-                continue
-            if isinstance(st, ast.If) and len(st.body) == 1 and isinstance(st.body[0], ast.Return) and not st.orelse \
-                    and isinstance(st.body[0].value, ast.Constant) and isinstance(st.body[0].value.value, bool):
-                c = self.cond(st.test, sym)
-                hit = reach if c is True else (SL.EMPTY if c is False else reach & c)
-                if st.body[0].value.value:
-                    T = T | hit
-                reach = reach - hit
-                continue
-            if isinstance(st, ast.Return):
-                if isinstance(st.value, ast.Constant) and isinstance(st.value.value, bool):
-                    if st.value.value:
-                        T = T | reach
-                else:
-                    c = self.cond(st.value, sym)
-                    T = T | (reach if c is True else (SL.EMPTY if c is False else reach & c))
-                reach = SL.EMPTY
-                break
-            raise AnalysisError(f"LEX1: statement `{norm(st, 60)}` of lex_continue not in the lexer-model vocabulary")
-        return T
+        out = {}
+        saved, self.bools = self.bools, {}
+        self.walk(fn.body, SIGMA, sym, out)            # falling off the end returns None (falsy)
+        self.bools = saved
+        if "Y" in out or "C" in out:
+            raise AnalysisError("LEX1: lex_continue yields or continues; not in the lexer-model vocabulary")
+        return out.get("T", SL.EMPTY)
 
     def yield_language(self):
-        """(Y, uses_continue): x for which lexer() yields the lexeme when lex_continue() said no."""
+        """(Y, uses_continue): x = lexeme.next for which lexer() arrives at the yield of the lexeme, on the paths
+        that follow the construction of the Token in the character loop."""
         from . import lexrules
         fn, svar, loop, ivar, charvar = lexrules.main_loop(self.repo)
         sym = {charvar: "CHAR", svar: "TEXT"}
@@ -240,6 +291,7 @@ class LexModel:
         if len(params) >= 3:
             sym[params[1]] = "G"
             sym[params[2]] = "D"
+        tok_assign = None
         for n in ast.walk(loop):
             if isinstance(n, ast.Assign):
                 if lexrules._is_call_to(n.value, "_next_char") and isinstance(n.targets[0], ast.Name):
@@ -250,22 +302,28 @@ class LexModel:
                 if isinstance(n.value, ast.Call) and isinstance(n.value.func, ast.Name) and n.value.func.id == "Token" \
                         and isinstance(n.targets[0], ast.Name):
                     sym[n.targets[0].id] = "TOKEN"
-        ynode = None
-        for n in ast.walk(loop):
-            if isinstance(n, ast.If) and any(isinstance(y, (ast.Yield, ast.YieldFrom)) for b in n.body for y in ast.walk(b)):
-                ynode = n
-                break
-        if ynode is None:
+                    tok_assign = n
+        # the block that holds the first yield of the loop, from the statement after the Token is built
+        def holder(block):
+            for i, st in enumerate(block):
+                if st is tok_assign:
+                    return block[i + 1:]
+            for st in block:
+                for fld in ("body", "orelse", "finalbody"):
+                    sub = getattr(st, fld, None)
+                    if isinstance(sub, list) and sub and isinstance(sub[0], ast.stmt):
+                        r = holder(sub)
+                        if r is not None:
+                            return r
+            return None
+        rest = holder(loop.body) if tok_assign is not None else None
+        if not rest or not any(isinstance(y, (ast.Yield, ast.YieldFrom)) for st in rest for y in ast.walk(st)):
             raise AnalysisError("anchor vanished: the yield branch of lexer()")
-        parent = getattr(ynode, "_parent", None)
-        uses_continue = isinstance(parent, ast.If) and ynode in parent.orelse and lexrules._is_call_to(parent.test, "lex_continue")
-        if uses_continue:
-            args = [sym.get(a.id) if isinstance(a, ast.Name) else None for a in parent.test.args]
-            if args[:6] != ["CHAR", "NEXT", "LEXEME", "TOKEN", "PRESERVE", "G"]:
-                raise AnalysisError(f"lexer() calls lex_continue with {args}; LEX1 expects (char, next_char, lexeme, tok, preserve, g)")
-        y = self.cond(ynode.test, sym)
-        Y = SIGMA if y is True else (SL.EMPTY if y is False else y)
-        return Y, uses_continue
+        self.uses_continue = False
+        self.bools = {}
+        out = {}
+        self.walk(rest, SIGMA, sym, out)
+        return out.get("Y", SL.EMPTY), self.uses_continue
 
     def single_value_language(self):
         rd = self.readers[self.dcls]
@@ -285,7 +343,7 @@ class LexModel:
     def bad_language(self):
         C = self.continue_language()
         Y, uses = self.yield_language()
-        split = (Y - C) if uses else Y
+        split = Y
         inside = SL.concat(self.preserve_prefixes(), ANY1)        # u.d with u inside the preservation state
         split = (split - inside) & SL.length_gt(1)
         K = self.single_value_language()
@@ -310,7 +368,7 @@ def check(repo, gcls, dcls):
     m = LexModel(repo, gcls, dcls)
     C = m.continue_language()
     Y, uses = m.yield_language()
-    split = (Y - C) if uses else Y
+    split = Y
     inside = SL.concat(m.preserve_prefixes(), ANY1)
     split = (split - inside) & SL.length_gt(1)
     rd = m.readers[dcls]
